@@ -23,10 +23,16 @@ import (
 	"time"
 )
 
-const (
-	repoRoot = "/repo"
-	goBin    = "go1.26.8"
-)
+const goBin = "go1.26.8"
+
+// repoRoot is /repo; VERIF_REPO overrides it for background sweeps on a snapshot
+// (registered commands never set it).
+var repoRoot = func() string {
+	if v := os.Getenv("VERIF_REPO"); v != "" {
+		return v
+	}
+	return "/repo"
+}()
 
 // verifRoot is the directory that holds bin/, sim/, evidence/ ... — derived
 // from the executable's location so that a snapshot of /verif is self-contained.
